@@ -45,7 +45,9 @@ RULE = RULE + RULE_HISTORY + (
     " Frame part: every Earth-centred orbit of the sub-product x every source form: copy(frame=), copy(frame=, form=T) for all T, "
     "in-place frame assignment and the way back, to a LINKED frame whose centre carries another body (mu = 1.3 x Earth, constant "
     "offset): numbers vs textbook definitions with the NEW mu, infos likewise. Name part: every documented form name and alias in "
-    "lower / UPPER / Title case through copy(form=), the setter and the constructor."
+    "lower / UPPER / Title case through copy(form=), the setter and the constructor. Argument-type part: 3 integer-valued cartesian "
+    "states x 12 numeric container / scalar types x {StateVector, Orbit}: bit-identical to the construction from floats, "
+    "identical conversions to 4 forms."
 )
 BOUNDS = {
     "quick": "4 bodies x 13 e x 5 i x 2 node x 2 perigee x 5 (ellipse) / 6 (hyperbola) anomalies: all 100/81 pairs, "
@@ -178,6 +180,7 @@ def units(tier, seed):
         chunk = forbs[k::nfr]
         if chunk:
             u.append((cfg, dict(part="frame", orbits=chunk)))
+    u.append((cfg, dict(part="argtypes")))
     return u
 
 
@@ -769,6 +772,80 @@ def name_variants(name):
     return [name, name.upper(), name.title()]
 
 
+# the same six integer-valued cartesian components handed to the constructors as different Python / numpy types
+ARG_STATES = [
+    ("EME2000", [7000000, 1200000, -300000, -1000, 5000, 5500]),      # ellipse
+    ("EME2000", [6800000, -2000000, 1500000, 3000, 9000, -7000]),     # hyperbola (v > escape velocity)
+    ("VfMoonI", [1900000, 300000, -200000, -200, 1300, 900]),         # ellipse around the Moon
+]
+def _arg_class(typ):
+    """input class of an argument type (signature): all-integer / 32-bit items / anything holding a 64-bit float"""
+    return "32-bit-items" if "32" in typ else "all-integer" if "int" in typ and "mixing" not in typ else "float64-or-mixed"
+
+
+ARG_TYPES = {
+    "list-of-float": lambda v: [float(x) for x in v],
+    "tuple-of-float": lambda v: tuple(float(x) for x in v),
+    "float64-array": lambda v: np.array(v, dtype=np.float64),
+    "list-of-int": lambda v: [int(x) for x in v],
+    "tuple-of-int": lambda v: tuple(int(x) for x in v),
+    "int64-array": lambda v: np.array(v, dtype=np.int64),
+    "int32-array": lambda v: np.array(v, dtype=np.int32),
+    "float32-array": lambda v: np.array(v, dtype=np.float32),
+    "list-mixing-int-and-float": lambda v: [int(x) if k % 2 else float(x) for k, x in enumerate(v)],
+    "list-of-numpy-int64": lambda v: [np.int64(x) for x in v],
+    "list-of-numpy-float64": lambda v: [np.float64(x) for x in v],
+    "list-of-numpy-float32": lambda v: [np.float32(x) for x in v],
+}
+ARG_FORMS = ["keplerian", "spherical", "keplerian_mean", "equinoctial"]
+
+
+def check_argtypes(k, typ, t):
+    """StateVector / Orbit built from the k-th integer-valued state given as argument type `typ`: same object as from
+    floats (bit for bit), same conversions, and those agree with the reference."""
+    from beyond.orbits import StateVector, Orbit
+    from beyond.frames.frames import get_frame
+
+    frame, vals = ARG_STATES[k]
+    mu = float(get_frame(frame).center.body.mu)
+    rv = np.array([float(x) for x in vals])
+    R = _R_of_state(rv, mu, frame)
+    if R is None:
+        raise RuntimeError(f"ARG_STATES[{k}] is outside the property's domain")
+    case = dict(kind="argtypes", state=k, type=typ, config={"frames": "c01"})
+    sig = f"constructor/argument-type/{_arg_class(typ)}"
+    clause = "a state built from six numbers holds these numbers, whatever numeric type they are given in"
+    for cls in (StateVector, Orbit):
+        extra = ("Kepler",) if cls is Orbit else ()
+        t.states_add(1)
+        t.ev(("arg", k, typ, cls.__name__))
+        base = cls([float(x) for x in vals], _W["date"], "cartesian", frame, *extra)
+        try:
+            obj = cls(ARG_TYPES[typ](vals), _W["date"], "cartesian", frame, *extra)
+            t.trans()
+        except Exception as ex:
+            t.fail(sig, clause, case, rv, repr(ex), f"{cls.__name__}({typ}) raised {ex!r}")
+            continue
+        arr = np.array(obj)
+        if arr.dtype != np.float64 or arr.shape != (6,) or not np.array_equal(arr, rv):
+            t.fail(sig, clause, case, rv, [str(arr.dtype), arr], f"{cls.__name__}({typ}) holds {arr.tolist()} (dtype {arr.dtype}) instead of {rv.tolist()}")
+            continue
+        for T in ARG_FORMS:
+            try:
+                a = np.array(obj.copy(form=T), dtype=float)
+                b = np.array(base.copy(form=T), dtype=float)
+                t.trans(2)
+            except Exception as ex:
+                t.fail(sig, clause, case, None, repr(ex), f"{cls.__name__}({typ}).copy(form={T!r}) raised {ex!r}")
+                continue
+            ok, txt, ratio = _state_ok(R, T, a)
+            if not np.array_equal(a, b) or not ok:
+                t.fail(sig, clause, case, b, a, f"{cls.__name__}({typ}).copy(form={T!r}) differs from the same state built from floats / from the reference: {txt}")
+            else:
+                t.margin("argument types: converted state vs reference [rel/cond]", ratio, 1.0, case)
+        t.outcome(("arg", typ, cls.__name__))
+
+
 def check_names(orb, t):
     """Every name of a form, in any case, through copy(form=), the setter and the constructor."""
     from beyond.orbits import StateVector
@@ -837,6 +914,11 @@ def run_unit(p, t):
             if ops and ops[0] == p["first"]:
                 check_history(orb, p["S"], ops, t)
         return
+    if p["part"] == "argtypes":
+        for k in range(len(ARG_STATES)):
+            for typ in ARG_TYPES:
+                check_argtypes(k, typ, t)
+        return
     if p["part"] == "frame":
         for k, orb in enumerate(p["orbits"]):
             orb = tuple(orb)
@@ -865,6 +947,8 @@ def run_unit(p, t):
 
 
 def replay(case, t):
+    if case["kind"] == "argtypes":
+        return check_argtypes(case["state"], case["type"], t)
     orb = tuple(case["orbit"])
     if case["kind"] == "pair":
         check_pair(orb, case["S"], case["T"], t)
